@@ -125,8 +125,9 @@ func symSend(fr *frame, pos token.Pos, ch *symchan, v value) {
 		if trySend(fr, ch, v) {
 			// opt-in preemption point: the sender may lose the processor right after its send
 			// completed, while everybody else runs as far as they can (an explored choice)
-			if fr.i.preemptAfterSend && ex.sched != nil && ex.sched.cur != nil && ex.sched.cur.id != 0 && !ch.envDrain {
+			if fr.i.preemptAfterSend && fr.i.preemptsLeft > 0 && ex.sched != nil && ex.sched.cur != nil && ex.sched.cur.id != 0 && !ch.envDrain {
 				if ex.choice(2) == 1 {
+					fr.i.preemptsLeft-- // context bound: at most 2 such preemptions per path
 					ex.yield(fr)
 				}
 			}
@@ -333,7 +334,9 @@ func (s *scheduler) receiverParked(ch *symchan) bool { return s.parked[ch] > 0 }
 func (s *scheduler) parkRecv(ch *symchan, on bool) {
 	if on {
 		s.parked[ch]++
-		s.epoch++
+		if ch.capacity == 0 { // only a rendezvous channel becomes sendable because a receiver parked
+			s.epoch++
+		}
 	} else {
 		s.parked[ch]--
 	}
